@@ -134,10 +134,14 @@ def check_circuit(n, gates, acc, policies=None, entry_all=True):
             if ok and (list(got) != exp_vals or not all(_is_bool(v) for v in got)):
                 acc.violation('evaluate/wrong-value', case, f'x={x} got {got} expected {exp_vals}')
             a = {labs[i]: x[i] for i in range(n)}
+            a_before = dict(a)
             ok, res = guarded(acc, 'evaluate_circuit', case, c.evaluate_circuit, a)
             acc.transitions += 1
             if ok:
                 _check_lazy(acc, case, 'evaluate_circuit', res, labs, ref, j, cone, Undefined, x)
+            if a != a_before or res is a:
+                acc.violation('evaluate_circuit/modifies-its-argument', case, f'x={x}: argument became {a!r}')
+                a = dict(a_before)
             ok, res = guarded(acc, 'evaluate_circuit_outputs', case, c.evaluate_circuit_outputs, a)
             acc.transitions += 1
             if ok:
@@ -157,6 +161,26 @@ def check_circuit(n, gates, acc, policies=None, entry_all=True):
                     if ok:
                         _check_lazy(acc, case, 'evaluate_circuit(outputs=)', res, labs, ref, j,
                                     net.reach_back([l]), Undefined, x)
+        if outs and n:
+            # one assignment dict reused across calls, only the input entries rewritten
+            shared = {}
+            for j, x in enumerate(asg):
+                for i in range(n):
+                    shared[labs[i]] = x[i]
+                for entry, fn in (('evaluate_circuit', c.evaluate_circuit), ('evaluate_circuit_outputs', c.evaluate_circuit_outputs),
+                                  ('evaluate_full_circuit', c.evaluate_full_circuit)):
+                    acc.transitions += 1
+                    ok, res = guarded(acc, f'{entry}(reused-dict)', case, fn, shared)
+                    if not ok:
+                        continue
+                    for l in olabs:
+                        if res.get(l) is not bool((ref[l] >> j) & 1):
+                            acc.violation(f'{entry}/wrong-value-with-reused-assignment-dict', case, f'x={x} output {l} got {res.get(l)!r}')
+                            break
+                    # keep only what the caller wrote: the inputs
+                    if set(shared) != set(labs[:n]):
+                        acc.violation(f'{entry}/modifies-its-argument', case, f'keys now {sorted(shared)}')
+                        shared = {labs[i]: x[i] for i in range(n)}
         entry_all = False  # the outputs= sweep does not depend on the policy: once is enough
     acc.sample(space.spec_json(n, gates, pols[-1] if pols else ()))
 
